@@ -6,12 +6,12 @@
 
   PROVED (model UVerif.Model.DD / UVerif.Model.ConvDD over the exact-integer binary64 model):
     * dd(double) = (d, +0), dd(float) = (double(f), +0): exact, representable (`C03_dd_from_f64`, `C03_dd_from_f32`);
-    * dd(int64) / dd(uint64): the head is the correctly rounded integer (`C03_dd_from_int64_head_rounded`), so the conversion
-      is exact iff the integer is a double — in particular below 2^53 (`C03_dd_from_int_partial`);
-    * FALSE in general: `C03_dd_from_int64_counterexample` (2^53 + 1 ↦ 2^53: the 106-bit significand would hold it);
-    * qd(int64) is exact for every int64 (`C03_qd_from_i64_exact`: x0 + x1 = v) but leaves x2, x3 untouched
-      (`C03_qd_from_int_stale_limbs_counterexample`); qd(uint64) is wrong as soon as the head is rounded UP
-      (`C03_qd_from_u64_counterexample`: 2^53 + 3 ↦ 2^53 + 4 + 2^64) — exact below 2^53 (`C03_qd_from_u64_partial`).
+    * dd(int64) / dd(uint64) and qd(int64) / qd(uint64) (after the repairs of convert_signed / convert_unsigned): for EVERY
+      64-bit integer −2^63 ≤ v < 2^64 the head is the correctly rounded integer, the second limb the exact remainder, the
+      limbs sum to v (`C03_dd_from_int64`, `C03_qd_from_int64`; qd also clears x[2], x[3]); the former counterexamples
+      (2^53 + 1; 2^53 + 3 and 2^64 − 1 as uint64; a dirty qd target) are now positive witnesses;
+    * dd / qd (long double): exact inside the double range on the 2^-1074 grid; ±inf, NaN and finite values that round to
+      ±inf give (±inf | NaN, +0) (`C03_dd_from_long_double_nonfinite`).
 -/
 import UVerifProofs.Lemmas.ConvDD
 import UVerif.Model.ConvDD
@@ -42,49 +42,41 @@ theorem C03_dd_from_f32 (x : F) (hx : x.Rep binary32) :
 
 example : (F.fin false 12582912).Rep binary32 := ⟨rfl, isFloat_of_natAbs_lt (by decide)⟩
 
-/-- `dd = integer` (every signed / unsigned type goes through int64 / uint64): exact whenever |v| < 2^p (2^53). -/
-theorem C03_dd_from_int_partial (f : Fmt) (hp : 1 ≤ f.p) (hpt : f.p + f.q ≤ f.top) (v : Int) (hv : v.natAbs < 2 ^ f.p) :
-    (DD.ofInt64 f v).hi.Rep f ∧ (DD.ofInt64 f v).lo = pzero ∧
-    (DD.ofInt64 f v).hi.toInt + (DD.ofInt64 f v).lo.toInt = v * ((2 ^ f.q : Nat) : Int) := by
-  unfold DD.ofInt64
-  by_cases h0 : v = 0
-  · subst h0; simp [pzero_rep, pzero_toInt]
-  · rw [if_neg h0]
-    obtain ⟨h1, h2, h3⟩ := ofInt_exact f hp hpt (z := v) hv
-    refine ⟨⟨h1, h3⟩, rfl, ?_⟩
-    show (ofInt f v).toInt + pzero.toInt = _
-    rw [h2, pzero_toInt, add_zero]
+/-- **`dd = integer`** (every signed / unsigned type goes through `convert_signed(int64_t)` / `convert_unsigned(uint64_t)`):
+    for EVERY 64-bit integer, signed or unsigned, both limbs are finite doubles, they sum to the integer EXACTLY, and the head
+    is the correctly rounded integer (so the pair is normalised: the tail is the rounding error of the head).
+    Any format with `p ≥ 33` and room for 2^65 units (binary64: `C03_fmt_binary64`). -/
+theorem C03_dd_from_int64 (f : Fmt) (ok : f.Ok) (h33 : 33 ≤ f.p) (hk : 65 + f.q + 1 ≤ f.top)
+    (v : Int) (h1 : -(2 ^ 63 : Int) ≤ v) (h2 : v < (2 ^ 64 : Int)) :
+    (DD.ofInt64 f v).hi.Rep f ∧ (DD.ofInt64 f v).lo.Rep f ∧
+    (DD.ofInt64 f v).hi.toInt + (DD.ofInt64 f v).lo.toInt = v * ((2 ^ f.q : Nat) : Int) ∧
+    (DD.ofInt64 f v).hi.toInt = rnInt f.p (v * ((2 ^ f.q : Nat) : Int)) :=
+  ofInt64_exact f ok h33 hk v h1 h2
 
-example : 1 ≤ binary64.p := by decide
-example : binary64.p + binary64.q ≤ binary64.top := by decide
-example : ((12345678901234 : Int)).natAbs < 2 ^ binary64.p := by decide
+/-- the format hypotheses hold for binary64 -/
+theorem C03_fmt_binary64 : binary64.Ok ∧ 33 ≤ binary64.p ∧ 65 + binary64.q + 1 ≤ binary64.top :=
+  ⟨binary64_ok, by decide, by decide⟩
 
-/-- for every integer whose magnitude is in range (all 64-bit integers for binary64) the head is the correctly rounded
-    value and the tail is +0 -/
-theorem C03_dd_from_int64_head_rounded (f : Fmt) (hp : 1 ≤ f.p) (hpt : f.p ≤ f.top) (v : Int)
-    (hr : v.natAbs * 2 ^ f.q ≤ maxMag f) :
-    (DD.ofInt64 f v).hi.toInt = rnInt f.p (v * ((2 ^ f.q : Nat) : Int)) ∧ (DD.ofInt64 f v).lo = pzero := by
-  unfold DD.ofInt64
-  by_cases h0 : v = 0
-  · subst h0; simp [pzero, F.toInt, rnInt_zero]
-  · simp only [h0, if_false, and_true]
-    exact (ofInt_spec f hp hpt hr).2
+/-- integers that are doubles (in particular |v| < 2^53) get a zero tail -/
+theorem C03_dd_from_int_double (f : Fmt) (ok : f.Ok) (h33 : 33 ≤ f.p) (hk : 65 + f.q + 1 ≤ f.top)
+    (v : Int) (h1 : -(2 ^ 63 : Int) ≤ v) (h2 : v < (2 ^ 64 : Int)) (hfl : IsFloat f.p (v * ((2 ^ f.q : Nat) : Int))) :
+    (DD.ofInt64 f v).hi.toInt = v * ((2 ^ f.q : Nat) : Int) ∧ (DD.ofInt64 f v).lo.toInt = 0 := by
+  obtain ⟨_, _, h3, h4⟩ := ofInt64_exact f ok h33 hk v h1 h2
+  rw [rnInt_exact (by omega) hfl] at h4
+  exact ⟨h4, by omega⟩
 
-/-- the range guard holds for every 64-bit integer (signed or unsigned) in binary64 -/
+/-- the range guard of `ofInt` holds for every 64-bit integer (signed or unsigned) in binary64 -/
 theorem C03_int64_in_range (v : Int) (h1 : -(2 ^ 63 : Int) ≤ v) (h2 : v < (2 ^ 64 : Int)) :
     v.natAbs * 2 ^ binary64.q ≤ maxMag binary64 :=
   int_in_range binary64 (by decide) (by decide) 64 (by decide) (by omega)
 
-/-- the full statement: every 64-bit integer is stored exactly (it fits the 106-bit significand) -/
-def C03_dd_from_int64_full : Prop :=
-  ∀ v : Int, -(2 ^ 63 : Int) ≤ v → v < (2 ^ 64 : Int) →
-    (DD.ofInt64 binary64 v).hi.toInt + (DD.ofInt64 binary64 v).lo.toInt = v * ((2 ^ binary64.q : Nat) : Int)
-
-/-- FALSE of the pinned code: 2^53 + 1 is stored as 2^53 (only `static_cast<double>(v)` is kept) -/
-theorem C03_dd_from_int64_counterexample : ¬ C03_dd_from_int64_full := by
-  intro h
-  have := h (2 ^ 53 + 1) (by decide) (by decide)
-  revert this
+set_option exponentiation.threshold 5000 in
+/-- the witness of the former finding `dd.from_int64.head_only`, now positive: 2^53 + 1 is stored as (2^53, 1);
+    2^64 − 1 as (2^64, −1); −2^63 + 1 as (−2^63, 1) -/
+theorem C03_dd_from_int64_witnesses :
+    DD.ofInt64 binary64 (2 ^ 53 + 1) = ⟨ofBits64 0x4340000000000000, ofBits64 0x3ff0000000000000⟩ ∧
+    DD.ofInt64 binary64 (2 ^ 64 - 1) = ⟨ofBits64 0x43f0000000000000, ofBits64 0xbff0000000000000⟩ ∧
+    DD.ofInt64 binary64 (-(2 ^ 63) + 1) = ⟨ofBits64 0xc3e0000000000000, ofBits64 0x3ff0000000000000⟩ := by
   decide +kernel
 
 /-! ### qd -/
@@ -103,58 +95,27 @@ theorem C03_qd_from_f32 (x : F) (hx : x.Rep binary32) :
   rw [e, add_zero] at h3
   exact h3
 
-/-- `qd = uint64` below 2^53: exact, second limb +0 (the two lower limbs keep their old content `p2`, `p3`) -/
-theorem C03_qd_from_u64_partial (v : Nat) (hv : v < 2 ^ 53) (hv0 : v ≠ 0) (p2 p3 : F) :
-    (ConvDD.qdFromU64 v p2 p3).1.toInt = (v : Int) * ((2 ^ binary64.q : Nat) : Int) ∧
-    (ConvDD.qdFromU64 v p2 p3).2.1.toInt = 0 ∧ (ConvDD.qdFromU64 v p2 p3).2.2 = (p2, p3) := by
-  have hp53 : ConvDD.b64.p = 53 := by decide
-  have hv' : v < 2 ^ ConvDD.b64.p := by rw [hp53]; exact hv
-  obtain ⟨hx0, htr⟩ := toU64_ofInt_small v hv' hv0
-  have hd : (v + 2 ^ 64 - v) % 2 ^ 64 = 0 := by
-    rw [Nat.add_sub_cancel_left]; exact Nat.mod_self _
-  have e : ConvDD.qdFromU64 v p2 p3 = (.fin false (v * 2 ^ ConvDD.b64.q), ofInt ConvDD.b64 ((0 : Nat) : Int), p2, p3) := by
-    unfold ConvDD.qdFromU64
-    rw [if_neg hv0]
-    simp only
-    rw [hx0, htr, hd]
-  rw [e]
-  refine ⟨?_, ?_, rfl⟩
-  · simp [F.toInt]
-  · simp [ofInt, pzero, F.toInt]
+/-- **`qd = integer`** (`convert_signed(int64_t)` / `convert_unsigned(uint64_t)` and every narrower type): for EVERY 64-bit
+    integer the two leading limbs are the correctly rounded integer and the EXACT remainder, and the two lower limbs are
+    cleared — whatever the target held before (the model does not read the old limbs at all). -/
+theorem C03_qd_from_int64 (v : Int) (h1 : -(2 ^ 63 : Int) ≤ v) (h2 : v < (2 ^ 64 : Int)) :
+    (ConvDD.qdFromInt v).1.Rep binary64 ∧ (ConvDD.qdFromInt v).2.1.Rep binary64 ∧
+    (ConvDD.qdFromInt v).1.toInt + (ConvDD.qdFromInt v).2.1.toInt = v * ((2 ^ binary64.q : Nat) : Int) ∧
+    (ConvDD.qdFromInt v).1.toInt = rnInt binary64.p (v * ((2 ^ binary64.q : Nat) : Int)) ∧
+    (ConvDD.qdFromInt v).2.2 = (pzero, pzero) := by
+  obtain ⟨r1, r2, r3, r4⟩ := ofInt64_exact binary64 binary64_ok (by decide) (by decide) v h1 h2
+  exact ⟨r1, r2, r3, r4, rfl⟩
 
-example : (12345 : Nat) < 2 ^ 53 ∧ (12345 : Nat) ≠ 0 := by decide
+example : -(2 ^ 63 : Int) ≤ 9223372036854775807 ∧ (9223372036854775807 : Int) < 2 ^ 64 := by decide
 
-/-- the full statement for qd(uint64) -/
-def C03_qd_from_u64_full : Prop :=
-  ∀ v : Nat, v < 2 ^ 64 → v ≠ 0 →
-    (ConvDD.qdFromU64 v pzero pzero).1.toInt + (ConvDD.qdFromU64 v pzero pzero).2.1.toInt = (v : Int) * ((2 ^ binary64.q : Nat) : Int)
-
-/-- FALSE: 2^53 + 3 rounds up to 2^53 + 4; `v − uint64(x0)` wraps to 2^64 − 1 and becomes the second limb 2^64 -/
-theorem C03_qd_from_u64_counterexample : ¬ C03_qd_from_u64_full := by
-  intro h
-  have := h (2 ^ 53 + 3) (by decide) (by decide)
-  revert this
+set_option exponentiation.threshold 5000 in
+/-- the witnesses of the former findings `qd.from_uint64.unsigned_difference` and `ub.qd.from_int64_max.cast_overflow`, now
+    positive: 2^53 + 3 is (2^53 + 4, −1, 0, 0); 2^64 − 1 is (2^64, −1, 0, 0); LLONG_MAX = 2^63 − 1 is (2^63, −1, 0, 0) -/
+theorem C03_qd_from_int64_witnesses :
+    ConvDD.qdFromInt (2 ^ 53 + 3) = (ofBits64 0x4340000000000002, ofBits64 0xbff0000000000000, pzero, pzero) ∧
+    ConvDD.qdFromInt (2 ^ 64 - 1) = (ofBits64 0x43f0000000000000, ofBits64 0xbff0000000000000, pzero, pzero) ∧
+    ConvDD.qdFromInt (2 ^ 63 - 1) = (ofBits64 0x43e0000000000000, ofBits64 0xbff0000000000000, pzero, pzero) := by
   decide +kernel
-
-/-- assignment from an integer leaves x[2], x[3] as they were: the represented value is not the integer -/
-theorem C03_qd_from_int_stale_limbs_counterexample :
-    ¬ (∀ (v : Int) (p2 p3 : F), v ≠ 0 → (ConvDD.qdFromI64 v p2 p3).2.2 = (pzero, pzero)) := by
-  intro h
-  have := h 1 (F.fin false 1) pzero (by decide)
-  revert this
-  decide +kernel
-
-/-- `qd = int64` (and every narrower signed type): the two leading limbs are the correctly rounded integer and the EXACT
-    remainder, for every int64 — including those that round up to 2^63, where `static_cast<int64_t>(2^63)` is the x86
-    "indefinite" value −2^63 and the wrapping subtraction happens to repair it. The lower limbs keep their old content. -/
-theorem C03_qd_from_i64_exact (v : Int) (h1 : -(2 ^ 63 : Int) ≤ v) (h2 : v < (2 ^ 63 : Int)) (hv0 : v ≠ 0) (p2 p3 : F) :
-    (ConvDD.qdFromI64 v p2 p3).1.Rep binary64 ∧ (ConvDD.qdFromI64 v p2 p3).2.1.Rep binary64 ∧
-    (ConvDD.qdFromI64 v p2 p3).1.toInt + (ConvDD.qdFromI64 v p2 p3).2.1.toInt = v * ((2 ^ binary64.q : Nat) : Int) ∧
-    (ConvDD.qdFromI64 v p2 p3).1.toInt = rnInt binary64.p (v * ((2 ^ binary64.q : Nat) : Int)) ∧
-    (ConvDD.qdFromI64 v p2 p3).2.2 = (p2, p3) :=
-  qdFromI64_exact v h1 h2 hv0 p2 p3
-
-example : -(2 ^ 63 : Int) ≤ 9223372036854775807 ∧ (9223372036854775807 : Int) < 2 ^ 63 := by decide
 
 /-! ### long double sources -/
 
@@ -182,10 +143,35 @@ theorem C03_qd_from_long_double_exact (x : F) (hf : x.isFinite = true) (z : Int)
     (ConvDD.qdFromLD x).1.toInt + (ConvDD.qdFromLD x).2.1.toInt = z ∧ (ConvDD.qdFromLD x).2.2 = (pzero, pzero) :=
   ⟨(ddFromLD_exact hf h h64 hr).2.2.1, rfl⟩
 
-/-- an infinite long double becomes (±inf, NaN): `rhs − truncated` is inf − inf -/
-theorem C03_dd_from_long_double_inf_counterexample :
-    ¬ (∀ s : Bool, (ConvDD.ddFromLD (.inf s)).lo.isFinite = true) := by
-  intro h
-  have := h false
-  revert this
-  decide
+/-- whenever the head `double(rhs)` is an infinity the tail is `+0` -/
+theorem C03_dd_from_long_double_inf_head (x : F) (s : Bool) (h : ConvDD.narrowLD x = .inf s) :
+    ConvDD.ddFromLD x = ⟨.inf s, pzero⟩ := by
+  unfold ConvDD.ddFromLD
+  simp only [h]
+  simp [ConvDD.widenLD, ConvDD.narrowLD, F.isFinite]
+
+/-- a long double that is not finite, or whose head overflows, gets a `+0` tail: `±inf ↦ (±inf, +0)`, `NaN ↦ (NaN, +0)`, and a
+    finite source that rounds beyond the double range (`size (rnShr 53 n K) > top`, i.e. |x| ≥ 2^1024 − 2^970) `↦ (±inf, +0)`.
+    (Before the repair the tail was `inf − inf = NaN` resp. `x − inf = ∓inf`.) -/
+theorem C03_dd_from_long_double_nonfinite :
+    (∀ s : Bool, ConvDD.ddFromLD (.inf s) = ⟨.inf s, pzero⟩ ∧ ConvDD.qdFromLD (.inf s) = (.inf s, pzero, pzero, pzero)) ∧
+    ConvDD.ddFromLD .nan = ⟨.nan, pzero⟩ ∧
+    (∀ (s : Bool) (n : Nat), ¬ size (rnShr ConvDD.b64.p n (ConvDD.x87.q - ConvDD.b64.q)) ≤ ConvDD.b64.top →
+      ConvDD.ddFromLD (.fin s n) = ⟨.inf s, pzero⟩ ∧ ConvDD.qdFromLD (.fin s n) = (.inf s, pzero, pzero, pzero)) := by
+  refine ⟨?_, ?_, ?_⟩
+  · intro s
+    simp [ConvDD.qdFromLD, ConvDD.ddFromLD, ConvDD.narrowLD, ConvDD.widenLD, F.isFinite]
+  · simp [ConvDD.ddFromLD, ConvDD.narrowLD, ConvDD.widenLD, F.isFinite]
+  · intro s n h
+    have e : ConvDD.narrowLD (.fin s n) = .inf s := by
+      simp only [ConvDD.narrowLD, roundShr, pack, h, if_false]
+    have d := C03_dd_from_long_double_inf_head _ s e
+    refine ⟨d, ?_⟩
+    unfold ConvDD.qdFromLD
+    rw [d]
+
+set_option exponentiation.threshold 20000 in
+/-- the witness of the former finding `dd.from_long_double.overflow_tail`: the largest finite long double below 2^1024
+    (x87 pattern 43fe ffffffffffffffff) satisfies the overflow hypothesis -/
+example : ¬ size (rnShr ConvDD.b64.p ((2 ^ 64 - 1) <<< (0x43fe - 1)) (ConvDD.x87.q - ConvDD.b64.q)) ≤ ConvDD.b64.top := by
+  decide +kernel
